@@ -152,15 +152,28 @@ Proof.
   intro s. repeat split. intros sg H. simpl. apply Z.ltb_lt in H. rewrite H. reflexivity.
 Qed.
 
-(* ---------- C10_exclusive_handoff_same_scope ---------- *)
-Lemma handoff_same_scope : forall s t id sa s' r r', reachable s ->
-  step s (LUnreg t id sa) = Some s' -> find id (regs s) = Some r ->
-  i_excl r = true -> i_active r = true ->
-  In r' (regs s) -> i_id r' <> id -> i_sig r' = i_sig r -> in_scope (scope_of r) r' = true ->
-  exists p, stg s' t = SUnreg p /\ p = sel_plan (scope_of r) (i_sig r) (remove id (regs s)) /\ p <> [] /\
-            regs s' = remove id (regs s).
+(* ---------- C10_exclusive_handoff ---------- *)
+Lemma handoff_wake_plan : forall b r rest, sorted rest -> handoff_wake b r rest = handoff_plan b r rest.
 Proof.
-  intros s t id sa s' r r' R H Hf Hx Ha Hin' Hid' Hsig' Hsc'.
+  intros b r rest Hs. unfold handoff_wake, handoff_plan. rewrite !(wake_plan_sel _ _ _ Hs). reflexivity.
+Qed.
+
+Lemma sel_plan_nonempty : forall sc sig l r', In r' l -> i_sig r' = sig -> in_scope sc r' = true -> sel_plan sc sig l <> [].
+Proof.
+  intros sc sig l r' Hin Hsig Hsc. unfold sel_plan. apply sel_nonempty. intro He.
+  assert (Hc : In r' (cands sc sig l)).
+  { unfold cands. apply filter_In. split; [assumption|]. rewrite Hsc. simpl. apply Z.eqb_eq. assumption. }
+  rewrite He in Hc. contradiction.
+Qed.
+
+(* what the unregistration of an active exclusive interest does when another interest for the signal remains *)
+Lemma handoff_step : forall s t id sa s' r r', reachable s ->
+  step s (LUnreg t id sa) = Some s' -> find id (regs s) = Some r ->
+  i_excl r = true -> i_active r = true -> In r' (regs s) -> i_id r' <> id -> i_sig r' = i_sig r ->
+  stg s' t = SUnreg (handoff_plan true r (remove id (regs s))) /\ regs s' = remove id (regs s) /\
+  In r' (remove id (regs s)).
+Proof.
+  intros s t id sa s' r r' R H Hf Hx Ha Hin' Hid' Hsig'.
   destruct (reachable_inv s R) as [HR _]. simpl in H. rewrite Hf in H.
   destruct (holds s t && is_idle (stg s t)); [|discriminate]. destruct (i_thr r =? t); [|discriminate].
   assert (Hin2 : In r' (remove id (regs s))).
@@ -171,12 +184,51 @@ Proof.
     pose proof (count_pos_in (i_sig r) r' _ Hin2 Hsig'). lia. }
   rewrite Hn in H. destruct (osb_eqb sa None); [|discriminate]. rewrite Hx, Ha in H. simpl in H.
   inversion H; subst; clear H. simpl. rewrite upd_same.
-  assert (Hs : sorted (remove id (regs s))) by (apply sorted_remove; apply (inv_sorted s HR)).
-  rewrite (wake_plan_sel _ _ _ Hs). eexists. repeat split.
-  unfold sel_plan. apply sel_nonempty. intro He.
-  assert (Hc : In r' (cands (scope_of r) (i_sig r) (remove id (regs s)))).
-  { unfold cands. apply filter_In. split; [assumption|]. rewrite Hsc'. simpl. apply Z.eqb_eq. assumption. }
-  rewrite He in Hc. contradiction.
+  rewrite (handoff_wake_plan true r _ (sorted_remove _ _ (inv_sorted s HR))). auto.
+Qed.
+
+(* same tree: the selection among the remaining interests of that tree *)
+Lemma handoff_same_scope : forall s t id sa s' r r', reachable s ->
+  step s (LUnreg t id sa) = Some s' -> find id (regs s) = Some r ->
+  i_excl r = true -> i_active r = true ->
+  In r' (regs s) -> i_id r' <> id -> i_sig r' = i_sig r -> in_scope (scope_of r) r' = true ->
+  exists p, stg s' t = SUnreg p /\ p = sel_plan (scope_of r) (i_sig r) (remove id (regs s)) /\ p <> [] /\
+            regs s' = remove id (regs s).
+Proof.
+  intros s t id sa s' r r' R H Hf Hx Ha Hin' Hid' Hsig' Hsc'.
+  destruct (handoff_step s t id sa s' r r' R H Hf Hx Ha Hin' Hid' Hsig') as [A [B C]].
+  pose proof (sel_plan_nonempty (scope_of r) (i_sig r) _ r' C Hsig' Hsc') as Hne.
+  exists (sel_plan (scope_of r) (i_sig r) (remove id (regs s))). repeat split; auto.
+  rewrite A. unfold handoff_plan. destruct (sel_plan (scope_of r) (i_sig r) (remove id (regs s))); [contradiction|reflexivity].
+Qed.
+
+(* full strength: the delivery goes to the next interest in the order "this-thread first, then process-wide" --
+   what iv_signal_handler itself would have chosen without the unregistered interest -- and is never dropped *)
+Definition handoff_full_strength : Prop :=
+  forall s t id sa s' r r', reachable s -> step s (LUnreg t id sa) = Some s' -> find id (regs s) = Some r ->
+    i_excl r = true -> i_active r = true ->
+    In r' (regs s) -> i_id r' <> id -> i_sig r' = i_sig r -> (in_scope (scope_of r) r' = true \/ i_tt r' = false) ->
+    exists p, stg s' t = SUnreg p /\ p <> [] /\ regs s' = remove id (regs s) /\
+      p = match sel_plan (scope_of r) (i_sig r) (remove id (regs s)) with
+          | [] => sel_plan None (i_sig r) (remove id (regs s))
+          | q => q
+          end.
+
+Theorem handoff_any_scope : handoff_full_strength.
+Proof.
+  intros s t id sa s' r r' R H Hf Hx Ha Hin' Hid' Hsig' Hsc'.
+  destruct (handoff_step s t id sa s' r r' R H Hf Hx Ha Hin' Hid' Hsig') as [A [B C]].
+  exists (handoff_plan true r (remove id (regs s))). split; [exact A|]. unfold handoff_plan.
+  destruct (sel_plan (scope_of r) (i_sig r) (remove id (regs s))) as [|q qs] eqn:Es.
+  - (* nobody in its own tree: then r' is process-wide; if r is process-wide too this contradicts Es *)
+    assert (Hpw : i_tt r' = false).
+    { destruct Hsc' as [Hsc'|Hsc']; [|exact Hsc']. exfalso.
+      apply (sel_plan_nonempty (scope_of r) (i_sig r) _ r' C Hsig' Hsc'). exact Es. }
+    assert (Hnone : in_scope None r' = true) by (simpl; rewrite Hpw; reflexivity).
+    destruct (i_tt r) eqn:Et.
+    + simpl. split; [apply (sel_plan_nonempty None (i_sig r) _ r' C Hsig' Hnone)|auto].
+    + exfalso. unfold scope_of in Es. rewrite Et in Es. apply (sel_plan_nonempty None (i_sig r) _ r' C Hsig' Hnone). exact Es.
+  - split; [discriminate|auto].
 Qed.
 
 (* ---------- C10_every_delivery_handled ---------- *)
@@ -295,48 +347,23 @@ Proof.
   destruct (quiet_thread_spec _ _ _ Hq Hin2 Ht2) as [Hc Hph]. destruct Hp2 as [Hp2|Hp2]; [lia|contradiction].
 Qed.
 
-(* ---------- D5: the hand-off does not cross from the thread set to the process set ---------- *)
+(* ---------- D5 (fixed in /repo): regression knowledge ---------- *)
+(* interest 1: exclusive, process-wide; interest 2: exclusive, this-thread; a delivery marks 2 (thread set first);
+   2 is unregistered before its handler ran.  The code BEFORE the fix (step_gen false) posts nothing, unlocks and
+   lets the thread block: it accepts this trace, which the full-strength monitor rejects.  The current code
+   (step_gen true) does not accept it: it hands the delivery to interest 1 (d5_fixed_trace). *)
 Definition d5_prefix : list label :=
-  [LLock 0; LReg 0 1 10 true false 1000 (Some true); LUnlock 0;      (* interest 1: exclusive, process-wide *)
-   LLock 0; LReg 0 2 10 true true 2000 None; LUnlock 0;              (* interest 2: exclusive, this-thread *)
-   LSigEnter 0 10 false; LPost 0 2; LSigExit 0;                      (* delivery: thread set first -> 2 marked *)
-   LLock 0].                                                          (* iv_signal_unregister(2) takes sig_lock *)
+  [LLock 0; LReg 0 1 10 true false 1000 (Some true); LUnlock 0;
+   LLock 0; LReg 0 2 10 true true 2000 None; LUnlock 0;
+   LSigEnter 0 10 false; LPost 0 2; LSigExit 0;
+   LLock 0].
 Definition d5_trace : list label := d5_prefix ++ [LUnreg 0 2 None; LUnlock 0; LBlock 0].
+Definition d5_fixed_trace : list label :=
+  d5_prefix ++ [LUnreg 0 2 None; LPost 0 1; LUnlock 0; LRead 0 1; LLock 0; LClear 0 1; LUnlock 0; LHandler 0 1; LBlock 0].
 
-Definition get (o : option state) : state := match o with Some s => s | None => init end.
-Definition d5_s : state := get (run init d5_prefix).
-Definition d5_s' : state := get (step d5_s (LUnreg 0 2 None)).
-
-(* the hand-off at full strength: the delivery goes to the next interest in the order "this-thread first,
-   then process-wide" -- what iv_signal_handler itself would have chosen without the unregistered interest *)
-Definition handoff_full_strength : Prop :=
-  forall s t id sa s' r r', reachable s -> step s (LUnreg t id sa) = Some s' -> find id (regs s) = Some r ->
-    i_excl r = true -> i_active r = true ->
-    In r' (regs s) -> i_id r' <> id -> i_sig r' = i_sig r -> (in_scope (scope_of r) r' = true \/ i_tt r' = false) ->
-    exists p, stg s' t = SUnreg p /\ p <> [].
-
-Lemma d5_facts :
-  run init d5_prefix = Some d5_s /\ step d5_s (LUnreg 0 2 None) = Some d5_s' /\
-  accepts d5_trace = true /\ monitor false d5_trace = true /\ monitor true d5_trace = false /\
-  stg d5_s' 0 = SUnreg [] /\
-  map (fun r => (i_id r, i_sig r, i_tt r, i_active r, i_cnt r)) (regs d5_s') = [(1, 10, false, false, 0)] /\
-  disp d5_s' 10 = true /\
+Lemma d5_regression :
+  accepts_gen false d5_trace = true /\ monitor true d5_trace = false /\ monitor false d5_trace = true /\
+  accepts d5_trace = false /\
+  accepts d5_fixed_trace = true /\ monitor true d5_fixed_trace = true /\ accepts_gen false d5_fixed_trace = false /\
   existsb (fun l => match l with LHandler _ _ => true | _ => false end) d5_trace = false.
 Proof. vm_compute. repeat split; reflexivity. Qed.
-
-Theorem handoff_cross_scope_refuted : ~ handoff_full_strength.
-Proof.
-  intro Hfull. destruct d5_facts as [H1 [H2 [_ [_ [_ [H6 _]]]]]].
-  assert (R : reachable d5_s) by (exists d5_prefix; exact H1).
-  destruct (find 2 (regs d5_s)) as [r|] eqn:Ef; [|vm_compute in Ef; discriminate].
-  destruct (find 1 (regs d5_s)) as [r'|] eqn:Ef'; [|vm_compute in Ef'; discriminate].
-  destruct (find_in _ _ _ Ef') as [Hin' Hid'].
-  assert (Hx : i_excl r = true /\ i_active r = true /\ i_sig r = 10 /\ i_sig r' = 10 /\ i_tt r' = false).
-  { vm_compute in Ef, Ef'. inversion Ef; inversion Ef'; subst. repeat split. }
-  destruct Hx as [Hx1 [Hx2 [Hx3 [Hx4 Hx5]]]].
-  destruct (Hfull d5_s 0 2 None d5_s' r r' R H2 Ef Hx1 Hx2 Hin') as [p [Hp Hne]].
-  - rewrite Hid'. discriminate.
-  - rewrite Hx3, Hx4. reflexivity.
-  - right. exact Hx5.
-  - rewrite H6 in Hp. inversion Hp; subst. apply Hne. reflexivity.
-Qed.
